@@ -168,6 +168,37 @@ func (w *World) applyMisc(ds *Doc, op sim.Op, o *Obs) bool {
 		} else {
 			o.Skipped, o.Res = true, "skip"
 		}
+	case "img.pos": // I[0]=image I[1]=position F[0..1]=offsets
+		if im := ds.image(op.Int(0)); im != nil {
+			o.Err = d.SetImagePosition(im, []document.ImagePosition{document.ImagePositionInline, document.ImagePositionFloatLeft, document.ImagePositionFloatRight}[pickIdx(op.Int(1), 3)], op.Flt(0), op.Flt(1))
+		} else {
+			o.Skipped, o.Res = true, "skip"
+		}
+	case "img.wrap":
+		if im := ds.image(op.Int(0)); im != nil {
+			o.Err = d.SetImageWrapText(im, []document.ImageWrapText{document.ImageWrapNone, document.ImageWrapSquare, document.ImageWrapTight, document.ImageWrapTopAndBottom}[pickIdx(op.Int(1), 4)])
+		} else {
+			o.Skipped, o.Res = true, "skip"
+		}
+	case "mllist": // per item: S[3i]=text S[3i+1]=type S[3i+2]=bullet, I[2i]=level I[2i+1]=start
+		var items []document.ListItem
+		for i := 0; 3*i+2 < len(op.S); i++ {
+			items = append(items, document.ListItem{Text: op.Str(3 * i), Type: document.ListType(op.Str(3*i + 1)), BulletSymbol: document.BulletType(op.Str(3*i + 2)), Level: op.Int(2 * i), StartNumber: op.Int(2*i + 1)})
+		}
+		before := len(d.Body.GetParagraphs())
+		o.Err = d.CreateMultiLevelList(items)
+		if ps := d.Body.GetParagraphs(); len(ps) > before {
+			ds.Paras = append(ds.Paras, ps[before:]...)
+		}
+	case "fnrun": // I[0]=paragraph S[0]=note text: a footnote attached to the last run of an existing paragraph
+		p := ds.para(op.Int(0))
+		if p == nil || len(p.Runs) == 0 {
+			o.Skipped, o.Res = true, "skip"
+			return true
+		}
+		o.Err = d.AddFootnoteToRun(&p.Runs[len(p.Runs)-1], op.Str(0))
+	case "toc.style": // I[0]=level, then a text format
+		o.Err = d.SetTOCStyle(op.Int(0), TextFormatOf(op, 1, 0))
 	case "img.align":
 		if im := ds.image(op.Int(0)); im != nil {
 			o.Err = d.SetImageAlignment(im, document.AlignmentType(op.Str(0)))
